@@ -575,11 +575,16 @@ fn script_handshake(rng: &mut Rng, tier: Tier, f: &mut dyn FnMut(&str) -> String
         }
         if tick % 3 == 0 {
             sc.op("srv-dump 0");
+            if !cls.is_empty() {
+                let c = rng.below(cls.len() as u64) as usize;
+                sc.op(&format!("srv-q 0 {}", cls[c].tok.spec.id));
+            }
         }
     }
     sc.op("srv-dump 0");
     for c in cls.iter() {
         sc.op(&format!("cli-dump {}", c.h));
+        sc.op(&format!("srv-q 0 {}", c.tok.spec.id));
     }
 }
 
@@ -2365,7 +2370,7 @@ fn script_wire(rng: &mut Rng, tier: Tier, f: &mut dyn FnMut(&str) -> String) {
 // profile 0: nc-regress — one fixed op list per repaired defect (deterministic, run on every check)
 // =============================================================================================
 
-const REGRESS_CASES: usize = 25;
+const REGRESS_CASES: usize = 26;
 
 fn regress_script(case: usize, f: &mut dyn FnMut(&str) -> String) {
     let mut rng = Rng::new(0xD1CE + case as u64);
@@ -3113,6 +3118,27 @@ fn regress_script(case: usize, f: &mut dyn FnMut(&str) -> String) {
                 }
             }
         }
+        // a full token of 32 addresses, all dead: every address gets its turn, then the client is timed out for good
+        25 => {
+            let list: Vec<String> = (0..32).map(|j| a4(10, 56, 0, j as u8, 5700 + j as u16)).collect();
+            let mut spec = base_spec(rng, 53, proto, key, 5, &list.join(","));
+            spec.expire = 305;
+            spec.seal_expire = 305;
+            spec.timeout = 1;
+            if new_client(&mut sc, 5, &a4(10, 9, 0, 60, 4960), &spec, 5_000_000).is_some() {
+                sc.op("cli-upd 5 0");
+                for _ in 0..33 {
+                    sc.op("cli-dump 5");
+                    sc.op("cli-upd 5 1050000");
+                    sc.op("cli-dump 5");
+                    sc.op("cli-q 5");
+                }
+                sc.op("cli-upd 5 1050000");
+                sc.op("cli-pay 5 00");
+                sc.op("cli-q 5");
+                sc.op("cli-dump 5");
+            }
+        }
         // sequence 2^64-1 (the window's EMPTY sentinel) from the owner of a session
         _ => {
             fast_connect(&mut sc, &cls[0]);
@@ -3239,10 +3265,53 @@ struct FoClient {
     early_done: bool,
 }
 
+/// A token of 1, 2, 31 or 32 addresses none of which answers: the client tries every one of them for more than its
+/// timeout and ends timed out (client.rs `server_addr_index >= 32` / `None => NoMoreServers`); with the time-out
+/// disabled (0 / negative) it stays on the first address until the token expires. Every update is bracketed by dumps.
+fn all_dead(sc: &mut Sc, rng: &mut Rng, srv: &Srv0) {
+    let now_s = srv.now_us / 1_000_000;
+    let n = rng.pick(&[1usize, 2, 31, 32, 32]);
+    let list: Vec<String> = (0..n).map(|j| a4(10, 78, 0, j as u8, 5900 + j as u16)).collect();
+    let mut spec = base_spec(rng, 650, srv.proto, srv.key, now_s, &list.join(","));
+    let timeout = rng.pick(&[1i32, 1, 2, 0, -1]);
+    spec.timeout = timeout;
+    spec.expire = now_s + if timeout > 0 { 300 } else { rng.pick(&[2u64, 3]) };
+    spec.seal_expire = spec.expire;
+    let cl = new_client(sc, 0, &a4(10, 6, 0, 9, 4609), &spec, srv.now_us);
+    sc.op("note setup-done");
+    if cl.is_none() {
+        return;
+    }
+    let t_us = timeout.max(1) as u64 * 1_000_000;
+    let mut steps = 0;
+    while steps < 3 * n + 12 {
+        steps += 1;
+        let dt = if timeout > 0 { rng.pick(&[t_us + 50_000, t_us + 1, t_us / 2 + 30_000, t_us]) } else { rng.pick(&[500_000u64, 1_000_000, 250_000]) };
+        sc.op("cli-dump 0");
+        sc.op(&format!("cli-upd 0 {}", dt));
+        sc.op("cli-dump 0");
+        let q = sc.op("cli-q 0");
+        if field(&q, "disconnected") == Some("1") {
+            break;
+        }
+    }
+    // it stays down
+    sc.op("cli-upd 0 250000");
+    sc.op("cli-pay 0 00");
+    sc.op("cli-upd 0 1000000");
+    sc.op("cli-disc 0");
+    sc.op("cli-q 0");
+    sc.op("cli-dump 0");
+}
+
 fn script_failover(rng: &mut Rng, _tier: Tier, f: &mut dyn FnMut(&str) -> String) {
     let mut sc = Sc::new(f);
     let max = rng.pick(&[2usize, 3, 4]);
     let srv = setup_server(&mut sc, rng, max);
+    if rng.chance(1, 8) {
+        all_dead(&mut sc, rng, &srv);
+        return;
+    }
     let now_s = srv.now_us / 1_000_000;
     // rarely: a (nearly) full token of 31 / 32 addresses whose last or last-but-one address is the only live one
     let big = rng.chance(1, 10);
@@ -3500,6 +3569,117 @@ fn table_full_ops(case: usize) -> Vec<String> {
 }
 
 // =============================================================================================
+// profile nc-pending-full (C19 / C10 / C18, one fixed case): NETCODE_MAX_PENDING_CLIENTS (4096) half-open handshakes from
+// distinct addresses. A further address is not served, an address that IS pending still is (and completes its
+// handshake), the seat that frees is taken by the next newcomer, and once the short-lived tokens have expired the
+// table has room again.
+// =============================================================================================
+
+const PENDING_MAX: u64 = 4096;
+
+fn pending_full_script(_case: usize, f: &mut dyn FnMut(&str) -> String) {
+    let mut rng = Rng::new(0x9E4D);
+    let rng = &mut rng;
+    let mut sc = Sc::new(f);
+    let key = k32(rng);
+    let ckey = k32(rng);
+    let proto = 7u64;
+    sc.op(&format!("srv-new 0 5000000 8 {} 1 {} {} {}", proto, hex(&key), hex(&ckey), SRV_A));
+    sc.op("note setup-done");
+    let (c2s, s2c) = (k32(rng), k32(rng));
+    let addr_of = |n: u64| a4(10, 100 + (n >> 8) as u8, (n & 255) as u8, 7, 7000 + (n & 1023) as u16);
+    // cheap short-lived tokens (expiry second 8, the server's clock says 5): same keys, no user data
+    let n_short = PENDING_MAX - 3;
+    for n in 0..n_short {
+        let mut xnonce = [0u8; 24];
+        xnonce[..8].copy_from_slice(&n.to_le_bytes());
+        let out = sc.op(&format!("ptok-seal {} 8 {} {} {} 5 {} {} {} -", proto, hex(&xnonce), hex(&key), 200_000 + n, SRV_A, hex(&c2s), hex(&s2c)));
+        if let Some(p) = out.strip_prefix("ok ").and_then(unhex) {
+            sc.op(&format!("srv-rx 0 {} {}", addr_of(n), hex(&request_datagram(proto, 8, &xnonce, &p))));
+        }
+    }
+    // real clients with long-lived tokens: three of them fill the table, three find it full
+    let mut cls: Vec<Cl> = vec![];
+    let mut reqs: Vec<Vec<u8>> = vec![];
+    for i in 0..6u64 {
+        let mut spec = base_spec(rng, 4300 + i, proto, key, 5, SRV_A);
+        spec.expire = 605;
+        spec.seal_expire = 605;
+        spec.timeout = 5;
+        if let Some(c) = new_client(&mut sc, i, &addr_of(5000 + i), &spec, 5_000_000) {
+            if let (_, Some(k)) = sc.opd(&format!("cli-upd {} 0", i)) {
+                reqs.push(sc.hist[k].bytes.clone());
+                cls.push(c);
+            }
+        }
+    }
+    if cls.len() < 6 {
+        return;
+    }
+    let mut chal: Vec<Option<Vec<u8>>> = vec![None; 6];
+    for i in 0..3 {
+        if let (_, Some(k)) = sc.opd(&format!("srv-rx 0 {} {}", cls[i].addr, hex(&reqs[i]))) {
+            chal[i] = Some(sc.hist[k].bytes.clone());
+        }
+    }
+    sc.op("srv-dump 0"); // 4096 pending entries
+    // a further address: not served (no answer)
+    sc.op(&format!("srv-rx 0 {} {}", cls[3].addr, hex(&reqs[3])));
+    sc.op(&format!("srv-rx 0 {} {}", cls[4].addr, hex(&reqs[4])));
+    // an address that is pending is served: retransmitted request -> a fresh challenge
+    if let (_, Some(k)) = sc.opd(&format!("srv-rx 0 {} {}", cls[0].addr, hex(&reqs[0]))) {
+        chal[0] = Some(sc.hist[k].bytes.clone());
+    }
+    // … as is a short-lived one of the crowd
+    {
+        let n = 17u64;
+        let mut xnonce = [0u8; 24];
+        xnonce[..8].copy_from_slice(&n.to_le_bytes());
+        let out = sc.op(&format!("ptok-seal {} 8 {} {} {} 5 {} {} {} -", proto, hex(&xnonce), hex(&key), 200_000 + n, SRV_A, hex(&c2s), hex(&s2c)));
+        if let Some(p) = out.strip_prefix("ok ").and_then(unhex) {
+            sc.op(&format!("srv-rx 0 {} {}", addr_of(n), hex(&request_datagram(proto, 8, &xnonce, &p))));
+        }
+    }
+    // … and its handshake completes while the table is full
+    if let Some(ch) = chal[0].clone() {
+        answer_challenge(&mut sc, 0, &cls[0].addr.clone(), &ch, Some("expect-connected"));
+    }
+    sc.op("srv-q 0 4300");
+    // one entry less: the next newcomer is served, the one after it is not
+    if let (_, Some(k)) = sc.opd(&format!("srv-rx 0 {} {}", cls[3].addr, hex(&reqs[3]))) {
+        chal[3] = Some(sc.hist[k].bytes.clone());
+    }
+    sc.op(&format!("srv-rx 0 {} {}", cls[4].addr, hex(&reqs[4])));
+    // the short-lived tokens expire (clock 9 s > 8): their entries vanish at the next update
+    sc.op("srv-upd 0 4000000");
+    sc.op("srv-dump 0");
+    for i in [4usize, 5] {
+        if let (_, Some(k)) = sc.opd(&format!("cli-upd {} 4000000", i)) {
+            let req = sc.hist[k].bytes.clone();
+            if let (_, Some(k)) = sc.opd(&format!("srv-rx 0 {} {}", cls[i].addr, hex(&req))) {
+                let ch = sc.hist[k].bytes.clone();
+                answer_challenge(&mut sc, i as u64, &cls[i].addr.clone(), &ch, Some("expect-connected"));
+            }
+        }
+    }
+    // the ones that were half-open all along finish as well
+    for i in [1usize, 3] {
+        if let Some(ch) = chal[i].clone() {
+            answer_challenge(&mut sc, i as u64, &cls[i].addr.clone(), &ch, Some("expect-connected"));
+        }
+    }
+    for i in 0..6u64 {
+        sc.op(&format!("srv-q 0 {}", 4300 + i));
+    }
+    sc.op("srv-updc 0 4300");
+    sc.op("srv-dump 0");
+}
+
+fn pending_full_ops(case: usize) -> Vec<String> {
+    fixed_ops(case, pending_full_script)
+}
+
+// =============================================================================================
 // profile nc-window (C04, wire level): packets of the three replay-protected kinds at sequences
 // {s, s±1, s±255, s±256, s±257, s±512} pushed through ONE window in random order with repetitions
 // =============================================================================================
@@ -3670,6 +3850,16 @@ pub fn profiles() -> Vec<Profile> {
             // nothing to minimise: the 2048 fillers are the point, and every re-run costs seconds
             keep: |ops| ops.len(),
             fixed: Some(table_full_ops),
+        },
+        Profile {
+            name: "nc-pending-full",
+            props: &["C19", "C10", "C18"],
+            cases: |_| 1,
+            new_world,
+            script: |_, _, _| {},
+            nontrivial: |_| true,
+            keep: |ops| ops.len(),
+            fixed: Some(pending_full_ops),
         },
         Profile {
             name: "nc-window",
@@ -4116,6 +4306,8 @@ fn oracle_table(ops: &[String], outs: &[String]) -> Option<OracleFail> {
     let mut lowered: HashMap<String, bool> = HashMap::new();
     let mut cur_max: HashMap<String, u64> = HashMap::new();
     let mut connected: HashMap<String, HashSet<u64>> = HashMap::new();
+    // (server, id) -> (address, first 8 bytes of the user data) reported by the `connected` event of the live session
+    let mut how: HashMap<(String, u64), (String, String)> = HashMap::new();
     for i in 0..ops.len().min(outs.len()) {
         let t = toks(&ops[i]);
         if t.len() < 2 {
@@ -4146,6 +4338,9 @@ fn oracle_table(ops: &[String], outs: &[String]) -> Option<OracleFail> {
                     if !connected.entry(s.clone()).or_default().insert(id) {
                         return fail(i, "connected-twice", format!("client {} reported connected while already connected", id));
                     }
+                    if o.len() == 5 {
+                        how.insert((s.clone(), id), (o[2].to_string(), o[3].chars().take(16).collect()));
+                    }
                     // the bound, judged on the event stream against the limit reconstructed from the ops
                     // (srv-new / srv-setmax) — not against what the implementation reports about itself
                     if let (Some(false), Some(m), Some(c)) = (lowered.get(&s), cur_max.get(&s), connected.get(&s)) {
@@ -4163,6 +4358,7 @@ fn oracle_table(ops: &[String], outs: &[String]) -> Option<OracleFail> {
                     if !connected.entry(s.clone()).or_default().remove(&id) {
                         return fail(i, "disconnected-without-connected", format!("client {} reported disconnected without being connected", id));
                     }
+                    how.remove(&(s.clone(), id));
                 }
             }
             "srv-q" if t.len() == 3 => {
@@ -4190,6 +4386,30 @@ fn oracle_table(ops: &[String], outs: &[String]) -> Option<OracleFail> {
                         }
                         if (field(o, "addr") != Some("-")) != c.contains(&id) {
                             return fail(i, "lookup-mismatch", format!("client_addr({}) = {:?} but the events say connected = {}", id, field(o, "addr"), c.contains(&id)));
+                        }
+                        // lookups by id refer to the session that was authenticated for that id
+                        if let (true, Some((a, ud))) = (c.contains(&id), how.get(&(s.clone(), id))) {
+                            if field(o, "addr") != Some(a.as_str()) {
+                                return fail(i, "lookup-mismatch", format!("client_addr({}) = {:?}, the session was reported connected from {}", id, field(o, "addr"), a));
+                            }
+                            if field(o, "ud").map(|u| u != ud.as_str()).unwrap_or(false) {
+                                return fail(i, "lookup-mismatch", format!("user_data({}) = {:?}…, the session was reported connected with {}…", id, field(o, "ud"), ud));
+                            }
+                        }
+                        if !c.contains(&id) && field(o, "ud").map(|u| u != "-").unwrap_or(false) {
+                            return fail(i, "lookup-mismatch", format!("user_data({}) = {:?} for a client that is not connected", id, field(o, "ud")));
+                        }
+                        if let (Some(n), Some(a), Some(b)) = (field(o, "n").and_then(p_u64), o.find(" slots=["), o.find("] pub=")) {
+                            if n as usize != c.len() {
+                                return fail(i, "lookup-mismatch", format!("connected_clients() = {} but the events say {:?} are connected", n, c));
+                            }
+                            if a + 8 <= b {
+                                let sl: Vec<&str> = o[a + 8..b].split(',').filter(|x| !x.is_empty()).collect();
+                                let distinct: HashSet<&&str> = sl.iter().collect();
+                                if sl.len() != c.len() || distinct.len() != sl.len() {
+                                    return fail(i, "lookup-mismatch", format!("clients_slot() = {:?} for {} connected clients", sl, c.len()));
+                                }
+                            }
                         }
                     }
                 }
@@ -4887,6 +5107,23 @@ fn oracle_timeout_not_postponed(ops: &[String], outs: &[String]) -> Option<Oracl
                 }
             }
         }
+        if t[0] == "srv-q" && t.len() == 3 {
+            // time_since_last_received_packet(id) = now − (time the peer was last heard): between now − hi and now − lo
+            if let (Some(id), now) = (p_u64(t[2]), s.now_ns) {
+                if let (Some(se), Some(idle)) = (s.sess.get(&id), field(out, "idle").and_then(|x| x.parse::<u128>().ok())) {
+                    if now >= se.hi && (idle < now - se.hi || idle > now - se.lo) {
+                        result = fail(
+                            i,
+                            "idle-time-inconsistent:server",
+                            format!(
+                                "time_since_last_received_packet({}) = {} ns at {} ns; the peer was certainly heard at {} ns and nothing that can have been a fresh authentic datagram arrived after {} ns",
+                                id, idle, now, se.lo, se.hi
+                            ),
+                        );
+                    }
+                }
+            }
+        }
         if t[0] == "srv-updc" && t.len() == 3 {
             if let (Some(id), now) = (p_u64(t[2]), s.now_ns) {
                 if let Some(se) = s.sess.get(&id) {
@@ -5400,7 +5637,7 @@ pub fn oracles() -> Vec<Oracle> {
         Oracle { prop: "C07", name: "nc-unauthentic-noop", engines: &["nc-session", "nc-hostile", "nc-attacker", "nc-regress"], check: oracle_hostile_noop },
         Oracle { prop: "C13", name: "nc-datagram-size", engines: NC_ALL, check: oracle_size },
         Oracle { prop: "C19", name: "nc-no-amplification", engines: NC_ALL, check: oracle_amplification },
-        Oracle { prop: "C10", name: "nc-connection-table", engines: &["nc-handshake", "nc-attacker", "nc-session", "nc-hostile", "nc-regress"], check: oracle_table },
+        Oracle { prop: "C10", name: "nc-connection-table", engines: &["nc-handshake", "nc-attacker", "nc-session", "nc-hostile", "nc-regress", "nc-pending-full"], check: oracle_table },
         Oracle { prop: "C05", name: "nc-connect-justified", engines: &["nc-handshake", "nc-attacker", "nc-session", "nc-hostile", "nc-regress", "nc-table-full"], check: oracle_connect_justified },
         Oracle { prop: "C17", name: "nc-nonce-unique", engines: &["nc-handshake", "nc-session", "nc-hostile", "nc-regress", "nc-failover"], check: oracle_nonce },
         Oracle { prop: "C17", name: "nc-tampered-rejected", engines: &["nc-wire", "nc-regress"], check: oracle_mutated_rejected },
@@ -5408,13 +5645,13 @@ pub fn oracles() -> Vec<Oracle> {
         Oracle { prop: "C04", name: "nc-payloads-authentic-once", engines: &["nc-session", "nc-handshake", "nc-hostile", "nc-known", "nc-regress", "nc-failover"], check: oracle_payloads },
         Oracle { prop: "C04", name: "nc-window-once", engines: &["nc-window"], check: oracle_window_once },
         Oracle { prop: "C20", name: "nc-stale-handshake-harmless", engines: &["nc-attacker", "nc-regress"], check: oracle_stale_handshake_harmless },
-        Oracle { prop: "C18", name: "nc-handshake-completes", engines: &["nc-regress", "nc-attacker"], check: oracle_expect_connected },
+        Oracle { prop: "C18", name: "nc-handshake-completes", engines: &["nc-regress", "nc-attacker", "nc-pending-full"], check: oracle_expect_connected },
         Oracle { prop: "C18", name: "nc-lossless-phase-connects", engines: &["nc-failover", "nc-regress"], check: oracle_expect_up },
         Oracle { prop: "C18", name: "nc-failover-patient", engines: &["nc-failover", "nc-handshake", "nc-regress", "nc-session", "nc-wire"], check: oracle_failover_patient },
         Oracle { prop: "C18", name: "nc-failover-tries-all", engines: &["nc-failover", "nc-handshake", "nc-regress"], check: oracle_failover_tries_all },
-        Oracle { prop: "C19", name: "nc-silent-to-invalid", engines: &["nc-handshake", "nc-attacker", "nc-hostile", "nc-session", "nc-regress", "nc-failover", "nc-known"], check: oracle_silent_to_invalid },
+        Oracle { prop: "C19", name: "nc-silent-to-invalid", engines: &["nc-handshake", "nc-attacker", "nc-hostile", "nc-session", "nc-regress", "nc-failover", "nc-known", "nc-pending-full"], check: oracle_silent_to_invalid },
         Oracle { prop: "C05", name: "nc-silent-to-invalid", engines: &["nc-handshake", "nc-attacker", "nc-regress", "nc-table-full"], check: oracle_silent_to_invalid },
         Oracle { prop: "C18", name: "nc-timeout-not-postponed", engines: &["nc-handshake", "nc-session", "nc-regress", "nc-failover"], check: oracle_timeout_not_postponed },
-        Oracle { prop: "C18", name: "nc-timeouts-exact", engines: &["nc-handshake", "nc-session", "nc-hostile", "nc-regress"], check: oracle_timeouts },
+        Oracle { prop: "C18", name: "nc-timeouts-exact", engines: &["nc-handshake", "nc-session", "nc-hostile", "nc-regress", "nc-failover"], check: oracle_timeouts },
     ]
 }
